@@ -132,16 +132,38 @@ Proof.
 Qed.
 Print Assumptions C19_pearson_residuals.
 
-(* FULL statement: invariance under  v -> a_v * v + c_v  with a_v > 0 for EVERY variable X, Y, Z_1..Z_k.
-   PROVED (_partial): shift of every variable (X, Y and every Z column) and positive rescaling of X and Y,
-   for Z empty or not, for any solutions of the normal equations before and after.
-   MISSING: rescaling of the Z columns (checked by the correspondence run only). *)
-Theorem C19_pearson_shift_scale_invariant_partial :
-  forall zempty k Zr x y bx by_ ax cx ay cy cz bx' by',
-  (0 < ax)%Qc -> (0 < ay)%Qc -> length cz = k ->
+(* invariance under  v -> a_v * v + c_v  for EVERY variable: a_X, a_Y > 0, and every Z column j by
+   a_j <> 0 (any invertible column scaling) and any shift c_j; for Z empty or not; for ANY solutions of the
+   normal equations before and after (so also for numpy's minimum-norm solution on rank-deficient Z).
+   The column space of [1 Z] is invariant, hence the residuals of X and Y are only rescaled by a_X, a_Y. *)
+Theorem C19_pearson_shift_scale_invariant :
+  forall zempty k Zr x y bx by_ ax cx ay cy az cz bx' by',
+  (0 < ax)%Qc -> (0 < ay)%Qc -> length az = k -> length cz = k -> Forall (fun a => a <> 0%Qc) az ->
   lstsq_ok k Zr x y bx by_ ->
-  lstsq_ok k (shiftZ cz Zr) (affine ax cx x) (affine ay cy y) bx' by' ->
-  pearsonr_model zempty (shiftZ cz Zr) (affine ax cx x) (affine ay cy y) bx' by' =
+  lstsq_ok k (affineZ az cz Zr) (affine ax cx x) (affine ay cy y) bx' by' ->
+  pearsonr_model zempty (affineZ az cz Zr) (affine ax cx x) (affine ay cy y) bx' by' =
   pearsonr_model zempty Zr x y bx by_.
-Proof. exact pearsonr_affine_invariant. Qed.
-Print Assumptions C19_pearson_shift_scale_invariant_partial.
+Proof. exact pearsonr_affine_invariant_full. Qed.
+Print Assumptions C19_pearson_shift_scale_invariant.
+
+(* the residuals themselves: an affine reparametrisation of the Z columns does not change them *)
+Theorem C19_pearson_residuals_z_affine : forall k Zr az cz y b b',
+  zwf k Zr -> length az = k -> length cz = k -> Forall (fun a => a <> 0%Qc) az ->
+  length y = length Zr -> length b = S k -> length b' = S k ->
+  normal_eq (S k) (design Zr) y b ->
+  normal_eq (S k) (design (affineZ az cz Zr)) y b' ->
+  resid (design (affineZ az cz Zr)) y b' = resid (design Zr) y b.
+Proof. exact resid_affine_z. Qed.
+Print Assumptions C19_pearson_residuals_z_affine.
+
+(* a NUMERIC lambda_ is passed through unchanged - in particular 0 (0, 0.0, -0.0 are the rational 0) is the
+   G-test, not the Cressie-Read default: same result as g_sq on every input *)
+Theorem C19_numeric_lambda_passthrough :
+  (forall q, resolve_lambda (wrapper_larg (W_power_divergence (LNum q))) = q) /\
+  (forall kinds rows X Y Z,
+     run_wrapper (W_power_divergence (LNum 0%Qc)) kinds rows X Y Z = run_wrapper W_g_sq kinds rows X Y Z) /\
+  (forall kinds rows X Y Z,
+     run_wrapper (W_power_divergence (LNum 1%Qc)) kinds rows X Y Z = run_wrapper W_chi_square kinds rows X Y Z) /\
+  resolve_lambda (wrapper_larg (W_power_divergence (LNum 0%Qc))) <> resolve_lambda (wrapper_larg W_power_divergence_default).
+Proof. repeat split; discriminate. Qed.
+Print Assumptions C19_numeric_lambda_passthrough.
